@@ -940,13 +940,14 @@ class Network:
             raise PeerConnectionError(
                 f"indirect connection timed out ({username=}, {ticket=})")
 
-        completed_future = done.pop()
+        # Both futures can be completed when the notice of the server and the
+        # connection of the peer were handled right after each other: the peer
+        # did connect, that connection should not be left behind
+        if expected_connection_future in done:
+            return expected_connection_future.result()
 
-        if completed_future == cannot_connect_future:
-            raise PeerConnectionError(
-                f"indirect connection failed ({username=}, {ticket=})")
-
-        return completed_future.result()
+        raise PeerConnectionError(
+            f"indirect connection failed ({username=}, {ticket=})")
 
     async def _handle_connect_to_peer(self, message: ConnectToPeer.Response):
         """Handles an indirect connection request received from the server.
